@@ -36,7 +36,7 @@ func enumerateTier(thorough bool) ([]*Seed, []*Exchange) {
 	var all []*Exchange
 	id := 0
 	for _, s := range seeds {
-		enumerate(s, alphabet, stride, func(m Mut) {
+		enumerate(s, alphabet, stride, !thorough, func(m Mut) {
 			all = append(all, &Exchange{ID: id, Seed: s, Mut: m})
 			id++
 		})
@@ -83,9 +83,8 @@ func replayMain() {
 	if err != nil {
 		vcommon.Harness("mkdtemp: %v", err)
 	}
-	workerTLS = true
 	d := &driver{r: r, findings: map[string]*finding{}, classes: map[string]int{}, perListen: map[string]int{}, skipSeed: map[*Seed]bool{}}
-	l := &lane{d: d}
+	l := &lane{d: d, tlsOK: true, kind: set[0].Seed.kind(true)}
 	died := 0
 	for i := 0; i < 3; i++ {
 		l.restart()
